@@ -206,18 +206,26 @@ def validate(traces, nbatch=None):
     """TLC validates traces against XoAlloc (contract). returns list of (f04, f12) per trace"""
     if not traces:
         return [], dict(generated=0, distinct=0)
-    # batches bounded by the amount of JSON a TLC process has to parse (walks of 150 steps carry their live lists): at most
-    # ~600 events per batch file of a few MB, never fewer batches than cores
-    nbatch = nbatch or max(min(C.NCPU, max(1, len(traces) // 200)), (sum(len(t["ev"]) for t in traces) + 19999) // 20000)
-    size = (len(traces) + nbatch - 1) // nbatch
-    batches = [traces[i:i + size] for i in range(0, len(traces), size)]
+    # batches bounded by the amount of JSON a TLC process has to parse (walks of 150 steps carry their live lists): a batch
+    # file stays below ~6 MB; never fewer batches than cores (when there is enough to share)
+    docs = [json.dumps(dict(init=t["init"], ev=t["ev"])) for t in traces]
+    limit = max(200000, min(6000000, sum(len(d) for d in docs) // max(1, nbatch or C.NCPU)))
+    bounds, cur = [0], 0
+    for i, d in enumerate(docs):
+        if cur + len(d) > limit and i > bounds[-1]:
+            bounds.append(i)
+            cur = 0
+        cur += len(d)
+    bounds.append(len(traces))
+    batches = [traces[bounds[i]:bounds[i + 1]] for i in range(len(bounds) - 1)]
+    bdocs = [docs[bounds[i]:bounds[i + 1]] for i in range(len(bounds) - 1)]
     verdicts = [None] * len(traces)
     tot = dict(generated=0, distinct=0)
 
     def one(bi):
         wd = C.scratch("tr")
         path = os.path.join(wd, "trace.json")
-        json.dump([dict(init=t["init"], ev=t["ev"]) for t in batches[bi]], open(path, "w"))
+        open(path, "w").write("[" + ",".join(bdocs[bi]) + "]")
         cfg = ("SPECIFICATION TraceSpec\nCONSTANTS MaxCap = 0 InitCap = 0 Sizes = {} Aligns = {} GrowAmounts = {} Tokens = {}\n"
                "CHECK_DEADLOCK FALSE\n")
         open(os.path.join(wd, "tr.cfg"), "w").write(cfg)
@@ -232,7 +240,7 @@ def validate(traces, nbatch=None):
     with ThreadPoolExecutor(max_workers=C.NCPU) as ex:
         for bi, vs, res in ex.map(one, range(len(batches))):
             for v in vs:
-                verdicts[bi * size + v[1] - 1] = (v[2], v[3])
+                verdicts[bounds[bi] + v[1] - 1] = (v[2], v[3])
             tot["generated"] += res["generated"]
             tot["distinct"] += res["distinct"]
     return verdicts, tot
